@@ -399,11 +399,13 @@ func vDescribe(e *Envelope) string {
 		}
 		dz := "-"
 		if x.TypeNameIndex >= 0 && int(x.TypeNameIndex) < len(e.TypeNames) {
-			if _, err := (ProtoSerializer{}).Deserialize(x.Data, e.TypeNames[x.TypeNameIndex]); err == nil {
-				dz = "1"
-			} else {
-				dz = "0"
-			}
+			dz = "0"
+			func() {
+				defer func() { _ = recover() }() // a panicking deserialiser counts as "rejects" here; the reader run below shows the panic
+				if _, err := (ProtoSerializer{}).Deserialize(x.Data, e.TypeNames[x.TypeNameIndex]); err == nil {
+					dz = "1"
+				}
+			}()
 		}
 		m = append(m, fmt.Sprintf("%d:%d:%d:%s", x.TypeNameIndex, x.SenderIndex, x.TargetIndex, dz))
 	}
@@ -434,7 +436,9 @@ func runHostile(t testing.TB, e *Envelope) string {
 	return "out=" + out + ";dl=" + strings.Join(ss, ",")
 }
 
-var vTypeNamePool = []string{"actor.PID", "remote.TestMessage", "actor.Ping", "nope.Missing", ""}
+// includes names that are registered in the global proto registry but are not messages (an enum, a nested enum)
+var vTypeNamePool = []string{"actor.PID", "remote.TestMessage", "actor.Ping", "nope.Missing", "",
+	"google.protobuf.FieldDescriptorProto.Type", "google.protobuf.Edition", "remote.Remote"}
 
 func vDataChoice(k int) []byte {
 	switch k {
@@ -479,7 +483,7 @@ func genHostile(r *vgen.Rng) *Envelope {
 		nt, ng = 1+r.Intn(3), 1+r.Intn(3)
 	}
 	for i := 0; i < nt; i++ {
-		if r.Chance(3, 4) {
+		if r.Chance(2, 3) {
 			e.TypeNames = append(e.TypeNames, vTypeNamePool[r.Intn(3)])
 		} else {
 			e.TypeNames = append(e.TypeNames, vgen.Pick(r, vTypeNamePool))
